@@ -202,7 +202,19 @@ static ChildResult run_forked(const Plan &p) {
 static Plan shrink(const Plan &orig, const string &prop, const string &cls, int budget, int *runs_used) {
   Plan best = orig;
   int used = 0;
-  auto fails = [&](const Plan &q) { used++; ChildResult r = run_forked(q); return r.violated && r.prop == prop && r.cls == cls; };
+  // a candidate that no longer fails under the original scheduler seed is retried under two more seeds when the plan
+  // is multi-threaded: removing operations shifts every later scheduling decision, and the interleaving that matters
+  // is often found again nearby
+  bool multi = orig.geti("threads", 1) > 1;
+  auto fails_once = [&](const Plan &q) { used++; ChildResult r = run_forked(q); return r.violated && r.prop == prop && r.cls == cls; };
+  auto fails = [&](Plan &q) {
+    if (fails_once(q)) return true;
+    if (!multi) return false;
+    uint64_t s0 = q.sc.seed;
+    for (int k = 1; k <= 2 && used < budget; k++) { q.sc.seed = s0 + 7919ULL * k; if (fails_once(q)) return true; }
+    q.sc.seed = s0;
+    return false;
+  };
   size_t chunk = std::max<size_t>(1, best.ops.size() / 2);
   while (used < budget) {
     bool progress = false;
